@@ -30,7 +30,7 @@ import re
 import sys
 
 sys.path.insert(0, os.path.dirname(__file__))
-from rsscan import (LostAnchor, Unsupported, mask, find_fn, find_impls, find_type, find_simple,
+from rsscan import (depth_map, LostAnchor, Unsupported, mask, find_fn, find_impls, find_type, find_simple,
                     find_loops, match_close, first_body_brace, attrs_start)
 
 REPO = os.environ.get('VERIF_REPO', '/repo')
@@ -172,17 +172,27 @@ class Gen:
             self.lines.append((ln, item, label, ckind))
 
     def emit_contract(self, lines, item, ckind):
-        label = None
+        # a clause may span several lines; it ends at the line whose code part ends with ',' and its label is the
+        # `// #label` comment on that last line - every line of the clause carries the label
         kind = ckind
+        pending = []
+        def flush(label):
+            for (l2, k2, s2) in pending:
+                self.lines.append((l2, item, label, k2 if s2 else None))
+            del pending[:]
         for ln in lines:
             s = ln.strip()
             mk = re.match(r'(requires|ensures|invariant|decreases|recommends)\b', s)
             if mk:
                 kind = mk.group(1)
             m = re.search(r'//\s*#([A-Za-z0-9_\-]+)\s*$', ln)
+            code = re.sub(r'//.*$', '', ln).rstrip()
+            pending.append((ln, kind, s))
             if m:
-                label = m.group(1)
-            self.lines.append((ln, item, label, kind if s else None))
+                flush(m.group(1))
+            elif code.endswith(','):
+                flush(None)
+        flush(None)
 
 
 def locate_fn(d):
@@ -215,6 +225,13 @@ def locate_fn(d):
         for (hdr, o, c) in impls:
             try:
                 it = find_fn(src, masked, name, o + 1, c, 0)
+                # associated type items of a trait impl belong to the impl header (`type Target = T;`)
+                it.assoc = []
+                if trait:
+                    dm = depth_map(masked, o + 1, c)
+                    for mt in re.finditer(r'\btype\s+\w+[^;{]*;', masked[o + 1:c]):
+                        if dm[mt.start()] == 0:
+                            it.assoc.append(src[o + 1 + mt.start():o + 1 + mt.end()])
                 found.append((hdr, it))
             except LostAnchor:
                 pass
@@ -354,6 +371,14 @@ def build_fn(gen, d):
     sig = src[kw_line_start:it.body_open].rstrip()
     body = src[it.body_open:it.body_close + 1]
     body_masked = masked[it.body_open:it.body_close + 1]
+    # R2: a parameter written `_: T` gets a name (Verus wants an identifier); it cannot be referred to, so nothing else changes
+    cnt = [0]
+    def _name_param(mm):
+        cnt[0] += 1
+        return '%s_unused%d:' % (mm.group(1), cnt[0])
+    sig = re.sub(r'([(,]\s*)_\s*:', _name_param, sig)
+    if cnt[0]:
+        gen.drops['R2_unnamed_params'] = gen.drops.get('R2_unnamed_params', 0) + cnt[0]
     if 'ret' in opts:
         sig = name_return(sig, opts['ret'][0])
         gen.drops['R1_ret_named'] += 1
@@ -516,6 +541,8 @@ def build_fn(gen, d):
         gen.emit(hi.strip() + ' // X5: item hoisted out of the body of %s' % name, item_id)
     if impl_header:
         gen.emit(impl_header + ' {', item_id)
+        for at in getattr(it, 'assoc', []):
+            gen.emit('    ' + at, item_id)
     for a in opts.get('attr', []):
         gen.emit(a.replace('~', ' '), item_id)
     if trusted:
@@ -616,7 +643,44 @@ def build_type(gen, d):
         a = edit_derive('#[derive()]', d.opts['derive'])
         if a:
             kept.append(a)
-    if 'opaque' in d.opts:
+    if 'keep' in d.opts:
+        # X4b: a struct reduced to the named fields (verbatim); code touching any other field no longer compiles -> undecided
+        gen.drops['X4_opaque_types'] += 1
+        m = re.match(r'\s*(pub(\([^)]*\))?\s+)?(struct|enum)\s+(\w+)\s*(<[^>{(]*>)?', src[kw_line_start:it.end])
+        if not m or it.body_open is None:
+            raise Unsupported('keep= on %s: not a braced struct / enum' % d.sel)
+        is_enum = m.group(3) == 'enum'
+        generics = m.group(5) or ''
+        btxt, bmask = src[it.body_open + 1:it.body_close], masked[it.body_open + 1:it.body_close]
+        fields = []
+        for fname in d.opts['keep']:
+            if is_enum:
+                ms = [mm for mm in re.finditer(r'(?:^|[,\s])(%s\b)\s*[({,=]' % re.escape(fname), bmask)
+                      if bmask[:mm.start(1)].count('(') == bmask[:mm.start(1)].count(')') and bmask[:mm.start(1)].count('{') == bmask[:mm.start(1)].count('}')]
+            else:
+                ms = [mm for mm in re.finditer(r'(?:^|[,{\s])((?:pub(?:\([^)]*\))?\s+)?%s\s*:)' % re.escape(fname), bmask)]
+            if len(ms) != 1:
+                raise LostAnchor('%s: field %s found %d times' % (d.sel, fname, len(ms)))
+            a = ms[0].start(1)
+            depth, j = 0, ms[0].end(1)
+            while j < len(bmask):
+                ch = bmask[j]
+                if ch in '<([{':
+                    depth += 1
+                elif ch in '>)]}':
+                    depth -= 1
+                elif ch == ',' and depth == 0:
+                    break
+                j += 1
+            fields.append(btxt[a:j].strip())
+        lts = [x.strip() for x in generics.strip('<>').split(',') if x.strip().startswith("'")]
+        used = [l for l in lts if any(re.search(re.escape(l) + r'\b', f) for f in fields)]
+        extra = ['_x4_%d: core::marker::PhantomData<&%s ()>' % (i, l) for i, l in enumerate(lts) if l not in used]
+        gen.emit('pub %s %s%s { // X4b: only the listed %s of %s:%s are extracted' % ('enum' if is_enum else 'struct', d.sel, generics, 'variants' if is_enum else 'fields', d.file, d.sel), item_id)
+        for f in fields + extra:
+            gen.emit('    %s,' % f, item_id)
+        gen.emit('}', item_id)
+    elif 'opaque' in d.opts:
         gen.drops['X4_opaque_types'] += 1
         m = re.match(r'\s*(pub(\([^)]*\))?\s+)?(struct|enum)\s+(\w+)\s*(<[^>{(]*>)?', src[kw_line_start:it.end])
         generics = m.group(5) or ''
